@@ -8,6 +8,7 @@ from sim.core import substream
 from sim.install import CTX
 
 PROP = 'C12'
+TECHNIQUE = 'deterministic simulation with fault injection: enumeration of fault kind x position x count per adapter call (FS seam, FakeS3, FakeB2), concurrent token expiry, end-to-end commands over faulty services'
 LEVEL = 'fault_enumeration'
 RULE = ('one case = (adapter in {Local on the FS seam, S3Compatible on FakeS3, B2 on FakeB2}, operation in {exists, upload, upload_stream, download, '
         'download_stream, list_files, delete}, payload of 0..4 stream chunks +- 1 byte, pre-existing object or not), transferred through the '
